@@ -1,6 +1,6 @@
 From Coq Require Import List ZArith QArith.
 Import ListNotations.
-From NV Require Import Merge.Algebra Props.C05.
+From NV Require Import Merge.Algebra Merge.ElabWf Props.C05.
 Close Scope Q_scope.
 Check (C05_merge_closed : forall a b, wf a = true -> wf b = true -> wf (merge a b) = true).
 Check (C05_merge_comm : forall a b, wf a = true -> wf b = true -> merge a b = merge b a).
@@ -13,6 +13,12 @@ Check (C05_export_comm : forall sat a b, wf a = true -> wf b = true ->
   export sat (merge a b) = export sat (merge b a)).
 Check (C05_export_assoc : forall sat a b c, wf a = true -> wf b = true -> wf c = true ->
   export sat (merge (merge a b) c) = export sat (merge a (merge b c))).
+
+Check (C05_elab_wf : forall e, wfE e = true -> wf (elab e) = true).
+Check (C05_expr_comm : forall a b, wfE a = true -> wfE b = true -> elab (EMerge a b) = elab (EMerge b a)).
+Check (C05_expr_assoc : forall a b c, wfE a = true -> wfE b = true -> wfE c = true ->
+  elab (EMerge (EMerge a b) c) = elab (EMerge a (EMerge b c))).
+Check (C05_expr_idem : forall a, wfE a = true -> elab (EMerge a a) = elab a).
 
 (* non-vacuity: a nested record with priorities, an optional field, a hidden field, contracts, an
    array and a pending conflict is well formed, and merging it with another one is not trivial *)
